@@ -630,6 +630,16 @@ def check_proto(p):
                         if v_in is not None and v_in.producer() is not None and id(v_in.producer().graph) not in own_graphs:
                             v.append(("input_produced_by_a_node_outside_the_model", f"{o.name!r} uses {v_in.name!r} produced by {v_in.producer().name!r} (graph {getattr(v_in.producer().graph, 'name', None)!r})"))
                             break
+                if isinstance(o, ir.Node) and id(o.graph) in own_graphs:
+                    # ... and a value of the model is used by nodes of the model only (a node the deserialiser built and
+                    # then dropped must not stay behind as a user)
+                    for v_in in list(o.inputs) + list(o.outputs):
+                        if v_in is None:
+                            continue
+                        ghost = [u.node for u in v_in.uses() if id(u.node.graph) not in own_graphs]
+                        if ghost:
+                            v.append(("value_used_by_a_node_outside_the_model", f"{v_in.name!r} is used by {ghost[0].name!r} (graph {getattr(ghost[0].graph, 'name', None)!r})"))
+                            break
                 if isinstance(o, ir.Value) and o.producer() is not None and o.producer().graph is not None and o.graph is not o.producer().graph:
                     v.append(("value_owned_by_a_graph_other_than_its_producers", f"{o.name!r}: graph={getattr(o.graph, 'name', None)!r} producer.graph={o.producer().graph.name!r}"))
                     break
